@@ -62,6 +62,7 @@ static TcpAsyncCtx *c14_ctx_connected(KSI_CTX *ctx) {
 	res = KSI_OctetStringList_new(&t->respQueue); ASSUME(res == KSI_OK);
 	for (unsigned i = 0; i < sizeof(t->inBuf); i++) t->inBuf[i] = C14_BYTE(inbuf_garbage);
 	t->inLen = 0;
+	{ extern const unsigned char *VERIF_mm_guard_base; extern size_t VERIF_mm_guard_len; VERIF_mm_guard_base = t->inBuf; VERIF_mm_guard_len = sizeof(t->inBuf); }   /* inBuf is a struct member: guard it explicitly */
 	t->ksi_user = NULL; t->ksi_pass = NULL; t->host = NULL; t->port = 0;
 	t->parent = &c14_parent;
 	VERIF_sk_open = 1;
